@@ -25,5 +25,29 @@ CHECK = ScenarioCheck(
     "direct-drive scenarios: 1-3 real queues in a route between probes; bw in {0,1 kB/s..1 GB/s}, latency 0..10 s, capacity 0 / < 1 packet / exact multiples of the packet size (+-1) / large; arrivals single, bursts, overload, on multiples of the serialisation time (coinciding with departures) and of the latency; mixed payload/syn/ack/synack/err; scripted dropper, NAT hop, echo sink replying through the same queue (re-entrancy); non-trivial = >= 4 probe observations; distinct = distinct implementation trace",
     TRUSTED, ASSUME, spec_scn=True)
 
+# ---- stage 2: routes of several hops under real UDP / TCP / ACK traffic --------------------
+from specs import delay
+import net_gen, vlib, time
+
+def gen2(seed, tier):
+    n = 150 if tier == "quick" else 5000
+    return net_gen.generate(seed * 5 + 1, tier, "mixed", n // 3) + net_gen.generate(seed * 5 + 2, tier, "tcp_heavy", n // 3) \
+        + net_gen.generate(seed * 5 + 3, tier, "udp", n // 3)
+
+ROUTES = ScenarioCheck("C09", ["SimVerif.Props.C09"], "kernel", gen2, delay.check, nontrivial,
+    "whole simulations (UDP datagrams, TCP handshakes, segments, ACKs, retransmissions) over routes of an access queue, an optional NAT/dropper, a network queue and an access queue: every packet seen at the sender's first-hop probe and at the receiver's last-hop probe must take at least the sum of latency + size/bandwidth of the queues in between (C09_route_lower_bound); the world model predicts every probe observation exactly",
+    TRUSTED, ASSUME, spec_scn=True)
+
 def run(tier, seed, replay):
-    return CHECK.run(tier, seed, replay)
+    if replay:
+        return CHECK.run(tier, seed, replay)
+    t0 = time.time()
+    rc1 = CHECK.run(tier, seed, None, write=False); cov1, v1, _ = CHECK.last
+    rc2 = ROUTES.run(tier, seed, None, write=False); cov2, v2, _ = ROUTES.last
+    cov = dict(cov1)
+    for k in ("evaluations", "distinct_nontrivial", "traces_validated_against_impl", "labels_compared", "mismatches", "spec_failures", "crashes"):
+        cov[k] = cov1[k] + cov2[k]
+    cov["rule"] = "stage 1 (direct drive): " + cov1["rule"] + " | stage 2 (routes): " + cov2["rule"]
+    cov["samples"] = cov1["samples"][:1] + cov2["samples"][:1]
+    vlib.write_evidence("C09", tier, seed, cov, ASSUME, time.time() - t0, v1 + v2)
+    return 1 if (rc1 or rc2) else 0
